@@ -29,6 +29,7 @@ import (
 	"strconv"
 	"strings"
 	"sync"
+	"sync/atomic"
 	"time"
 
 	"github.com/gocql/gocql"
@@ -36,6 +37,8 @@ import (
 	"verifharness/sess"
 	"verifharness/vh"
 )
+
+var prefetchNeverArrived int32
 
 type walkScen struct {
 	delay    bool // `v<n>d`: the node holds the answer to every follow-up request for a moment (see setupWalk)
@@ -317,7 +320,13 @@ func (env *walkEnv) walk(sc walkScen) string {
 			}
 			// started: the goroutine exists, so its request arrives
 			want := c.PageState()
-			deadline := time.Now().Add(8 * time.Second)
+			// 8 s are far more than a goroutine needs to put a request on the in-memory pipe, whatever the load; once a
+			// request has failed to arrive in this process (the code under test starts no fetch), later waits are short
+			wait := 8 * time.Second
+			if atomic.LoadInt32(&prefetchNeverArrived) != 0 {
+				wait = 20 * time.Millisecond
+			}
+			deadline := time.Now().Add(wait)
 			for {
 				mu.Lock()
 				seenIt := false
@@ -331,6 +340,7 @@ func (env *walkEnv) walk(sc walkScen) string {
 					break
 				}
 				if time.Now().After(deadline) {
+					atomic.StoreInt32(&prefetchNeverArrived, 1)
 					return 9 // oncea has fired but no request arrives: no goroutine is fetching (not a crash of gocql: a disagreement of op walko)
 				}
 				time.Sleep(50 * time.Microsecond)
